@@ -4,6 +4,7 @@
 From Coq Require Import NArith List Bool.
 Import ListNotations.
 From CXV Require Import Gen.TokTy Parse.Balanced Parse.BalancedThms Parse.Declarator Parse.DeclSpec Parse.DeclThms Parse.DeclPins.
+From CXV Require Gen.PinsC01.
 From CXV Require Import Parse.EnumList Parse.Specs Parse.VarStmt Parse.FnTail Parse.Init Parse.Members Parse.Template.
 From CXV Require Import Parse.Fold Parse.FoldThms Parse.FoldPlace.
 Open Scope N_scope.
@@ -139,6 +140,13 @@ Proof. exact items_land_where_written_lemma. Qed.
 Theorem declarator_code_is_the_modelled_one : decl_sets_ok = true.
 Proof. exact decl_sets_ok_true. Qed.
 
+(* the functions the hand-written models above mirror (_parse_type, ParsedTypeModifiers.validate, _parse_enumerator_list, _parse_fn_end, _parse_template_decl and _parse_template_type_parameter) are, token for
+   token of their syntax trees, the ones the models were written against: the
+   translator recomputes the digests from the live code and produces Gen/PinsC01.v
+   only when they match *)
+Theorem modelled_functions_are_the_pinned_ones : PinsC01.model_code_pinned = true.
+Proof. exact (eq_refl true). Qed.
+
 Print Assumptions declarator_code_is_the_modelled_one.
 Print Assumptions one_entry_per_declarator_partial.
 Print Assumptions specifiers_decode_partial.
@@ -180,3 +188,4 @@ Example c01_stmt_run :
   = DOk (mkMods true false true false false true false false false,
          [(1, TPtr (TBase 5 true false) true false); (2, TArr (TBase 5 true false) [mkTk 3 9])], []).
 Proof. vm_compute. reflexivity. Qed.
+Print Assumptions modelled_functions_are_the_pinned_ones.
